@@ -18,6 +18,9 @@ RULE = (
     "patches as in C01 (zero-sized input blocks take and pass on "
     "fallthrough, return and branch edges)."
 )
+RULE += (
+    " More calls into one function and more function-centred edit sets (incl. a second returning patch) than the other listing checks."
+)
 ASSUMPTIONS = [
     "don't-care classes 1-4 of DESIGN 2.1 (halt fallthrough, no physically following code, edges of retained zero-sized blocks, predecessor of a proxy-deleted block)",
     "indirect transfers are only required to lead to some proxy with direct=False",
